@@ -705,22 +705,22 @@ pub fn def() -> PropertyDef {
             sub(
                 "F/garbage-residual",
                 lat::<F>,
-                (6000, 150_000),
+                (20_000, 300_000),
                 |ctx: &RunCtx, f: Option<&Cfg>| garbage_strategy(cfgs::<F>(ctx, f)),
                 garbage_oracle,
             ),
             sub(
                 "F/garbage-batch-residual",
                 crate::runner::no_fixed,
-                (2500, 60_000),
+                (8000, 100_000),
                 |_: &RunCtx, _: Option<&()>| garbage_batch_strategy(),
                 garbage_batch_oracle,
             ),
-            mut_sub::<F>((4000, 100_000)),
-            mut_sub::<R>((600, 8000)),
-            cheat_sub::<F>((1500, 30_000)),
-            cheat_sub::<R>((300, 4000)),
-            crate::props::c03::cancel_sub::<F>((400, 8000)),
+            mut_sub::<F>((12_000, 200_000)),
+            mut_sub::<R>((1500, 12_000)),
+            cheat_sub::<F>((5000, 60_000)),
+            cheat_sub::<R>((800, 6000)),
+            crate::props::c03::cancel_sub::<F>((1500, 15_000)),
             crate::fuzzdec::corpus_sub("verify"),
         ],
     }
